@@ -435,7 +435,7 @@ func checkC12(r *core.Run) {
 			guard.False(order + "#1"), // order gone
 			guard.Eq("*"+order+"#0.Status", pending),
 			guard.Ge("(uint64(sdk.Context.BlockHeight()) + *"+order+"#0.Timeout)", "(*"+order+"#0.CreatedAt + *"+order+"#0.Duration)"), // end-of-life cut-off
-			guard.Lt("(*Timeout * 10)", "(uint64(sdk.Context.BlockHeight()) - *"+order+"#0.CreatedAt)"), // give-up after MaxTries
+			guard.Lt("(*Timeout * 10)", "(uint64(sdk.Context.BlockHeight()) - *"+order+"#0.CreatedAt)"),                                // give-up after MaxTries
 			guard.Lt("(10 * *Timeout)", "(uint64(sdk.Context.BlockHeight()) - *"+order+"#0.CreatedAt)"),
 		}
 		allowed = append(allowed, zero...)
@@ -973,59 +973,79 @@ func ruleReplacePaired(r *core.Run) {
 		return
 	}
 	tmo := constVal(r, "order/types", "ShardTimeout")
-	resp := map[*ssa.BasicBlock]int{} // block -> index of first NewShardTask call
-	for _, c := range callsIn(r, fn, "order/keeper.Keeper.NewShardTask") {
-		b := c.Block()
-		for i, ins := range b.Instrs {
-			if ins == c.(ssa.Instruction) {
-				if j, ok := resp[b]; !ok || i < j {
-					resp[b] = i
+	// followedInIteration: after the instruction, a NewShardTask call comes before the current loop iteration of g
+	// ends (or before any return, outside loops)
+	followedInIteration := func(g *ssa.Function, at ssa.Instruction) (bool, []*ssa.BasicBlock) {
+		b := at.Block()
+		after := false
+		for _, ins := range b.Instrs {
+			if ins == at {
+				after = true
+				continue
+			}
+			if !after {
+				continue
+			}
+			if c, ok := ins.(ssa.CallInstruction); ok {
+				if n, cs := r.Resolver(g).CalleeName(c.Common()); n == "order/keeper.Keeper.NewShardTask" {
+					return true, nil
+				} else {
+					for _, h := range cs {
+						if h != g && alwaysCalls(r, h, "order/keeper.Keeper.NewShardTask", 0) {
+							return true, nil
+						}
+					}
 				}
 			}
 		}
+		blocked := blocksCallingDeep(r, g, "order/keeper.Keeper.NewShardTask", 0)
+		delete(blocked, b)
+		hdr := innermostLoopHeader(g, b)
+		start := true
+		bad := forwardAvoid(b, blocked, nil, func(x *ssa.BasicBlock) bool {
+			if start && x == b {
+				start = false
+				return false
+			}
+			return x == hdr || isReturnBlock(x)
+		})
+		return bad == nil, bad
 	}
-	res := r.Resolver(fn)
 	n := 0
-	for _, b := range fn.Blocks {
-		for i, ins := range b.Instrs {
-			st, ok := ins.(*ssa.Store)
-			if !ok {
-				continue
-			}
-			fa, ok := st.Addr.(*ssa.FieldAddr)
-			if !ok || shortTypeName(fa.X.Type())+"."+fieldNameT(fa.X.Type(), fa.Field) != "order/types.Shard.Status" {
-				continue
-			}
-			if res.Of(st.Val).String() != tmo {
-				continue
-			}
-			n++
-			key := core.Key(id, fnName, fmt.Sprintf("close#%d", n))
-			ok2 := false
-			if j, in := resp[b]; in && j > i {
-				ok2 = true
-			}
-			var bad []*ssa.BasicBlock
-			if !ok2 {
-				hdr := innermostLoopHeader(fn, b)
-				blocked := map[*ssa.BasicBlock]bool{}
-				for rb := range resp {
-					blocked[rb] = true
+	// the close and its replacement may sit in a helper extracted from the handler: every frame is searched, and
+	// the replacement may follow in the helper or after the call that leads there
+	for _, fr := range frames(r, fn) {
+		res := r.Resolver(fr.Fn)
+		fns := fr.Fns(fn)
+		for _, b := range fr.Fn.Blocks {
+			for _, ins := range b.Instrs {
+				st, ok := ins.(*ssa.Store)
+				if !ok {
+					continue
 				}
-				start := true
-				bad = forwardAvoid(b, blocked, nil, func(x *ssa.BasicBlock) bool {
-					if start && x == b {
-						start = false
-						return false
+				fa, ok := st.Addr.(*ssa.FieldAddr)
+				if !ok || shortTypeName(fa.X.Type())+"."+fieldNameT(fa.X.Type(), fa.Field) != "order/types.Shard.Status" {
+					continue
+				}
+				if res.Of(st.Val).String() != tmo {
+					continue
+				}
+				n++
+				key := core.Key(id, fnName, fmt.Sprintf("close#%d", n))
+				ok2 := false
+				var bad []*ssa.BasicBlock
+				for lvl := len(fr.Chain); lvl >= 0 && !ok2; lvl-- {
+					var w []*ssa.BasicBlock
+					ok2, w = followedInIteration(fns[lvl], fr.At(lvl, st))
+					if bad == nil {
+						bad = w
 					}
-					return x == hdr || isReturnBlock(x)
-				})
-				ok2 = bad == nil
-			}
-			if ok2 {
-				r.Discharge(id, key, r.P.Pos(st.Pos()), "closing the stalled shard is followed by NewShardTask in the same iteration")
-			} else {
-				r.Violate(id, key, r.P.Pos(st.Pos()), "the timeout handler closes a stalled shard (Status := ShardTimeout) on a path that does not create a replacement shard task in the same iteration: when fewer replacement providers are found than shards stalled, the surplus shards are closed with no replacement, later checks (which count only waiting shards) forget the missing replica, and the payer is neither served nor refunded", pathDesc(r, bad))
+				}
+				if ok2 {
+					r.Discharge(id, key, r.P.Pos(st.Pos()), "closing the stalled shard is followed by NewShardTask in the same iteration")
+				} else {
+					r.Violate(id, key, r.P.Pos(st.Pos()), "the timeout handler closes a stalled shard (Status := ShardTimeout) on a path that does not create a replacement shard task in the same iteration: when fewer replacement providers are found than shards stalled, the surplus shards are closed with no replacement, later checks (which count only waiting shards) forget the missing replica, and the payer is neither served nor refunded", pathDesc(r, bad))
+				}
 			}
 		}
 	}
